@@ -29,7 +29,8 @@ def check(ctx, m, cfg, props_sel, rule="R-CFORM"):
     insts = [
         ("getNumCells", ["C03"], _getNumCells), ("cellToChildrenSize", ["C04", "C13"], _cellToChildrenSize),
         ("gridPathCellsSize", ["C14"], _gridPathCellsSize), ("maxFaceCount", ["C19"], _maxFaceCount),
-        ("maxGridDiskSize", ["C05", "C12"], _maxGridDiskSize), ("cellArea units", ["C08"], _areaUnits), ("edgeLength units", ["C10"], _edgeUnits),
+        ("maxGridDiskSize", ["C05", "C12"], _maxGridDiskSize), ("validateChildPos", ["C13"], _validateChildPos),
+        ("child-count arithmetic stays 64-bit", ["C13", "C04", "C03"], _narrow), ("cellArea units", ["C08"], _areaUnits), ("edgeLength units", ["C10"], _edgeUnits),
     ]
     n = 0
     for name, props, fn in insts:
@@ -235,3 +236,79 @@ def _edgeUnits(m):
     if bad:
         return bad
     return {"n": n1 + n2, "ok": "edgeLengthKm = edgeLengthRads * EARTH_RADIUS_KM, edgeLengthM = edgeLengthKm * 10^3; inner errors passed on"}
+
+
+def _count(pent, n):
+    return 1 + 5 * (7 ** n - 1) // 6 if pent else 7 ** n
+
+
+def _validateChildPos(m):
+    """the position guard, evaluated as an expression DAG over (res(parent), childRes, pentagon?, position)"""
+    f = m.fn("validateChildPos")
+    pk, hk, ck = f.arg_index("childPos"), f.arg_index("parent"), f.arg_index("childRes")
+    if None in (pk, hk, ck):
+        raise AnalysisBroken("validateChildPos: parameters childPos/parent/childRes not found")
+    n = 0
+    for pres in range(16):
+        for cres in range(pres, 16):
+            for pent in (0, 1):
+                d = cres - pres
+                cnt = _count(pent, d)
+
+                def cts(argv, mem, cnt=cnt):
+                    mem[argv[2]] = cnt
+                    return 0
+                models = {"cellToChildrenSize": cts, "isPentagon": lambda a, mem, p=pent: p, "_ipow": _ipow}
+                for pos in sorted({-1, 0, cnt - 1, cnt, cnt + 1, 7 ** d - 1, 7 ** d, -2 ** 63}):
+                    e = ceval.Eval(m, f, None, models)
+                    h = (pres << 52) | (1 << 59)
+                    e.args = [pos & I64 if k == pk else h if k == hk else cres for k in range(len(f.args))]
+                    r = e.run()
+                    n += 1
+                    exp = 0 if 0 <= pos < cnt else 2
+                    if r != exp:
+                        return {"bad": ("validateChildPos:%s:n%d" % ("pent" if pent else "hex", d),
+                                        "validateChildPos(childPos=%d, %s parent of res %d, childRes=%d) returns %d; the parent has %d children, so the documented answer is %s"
+                                        % (pos, "pentagon" if pent else "hexagon", pres, cres, r, cnt, "E_SUCCESS" if exp == 0 else "E_DOMAIN"), f.where())}
+    return {"n": n, "ok": "for all 136 resolution pairs x {hexagon, pentagon} and the boundary positions (-1, 0, count-1, count, 7^n-1, 7^n): E_DOMAIN exactly outside [0, cellToChildrenSize)"}
+
+
+_ARITH = ("add", "sub", "mul", "phi", "select", "sext", "zext", "or", "shl", "freeze")
+
+
+def _ipow_slices(m):
+    """for every _ipow(7, e) call: the values computed from its result by integer arithmetic"""
+    out = []
+    for f in m.defined():
+        for i in f.all_insts():
+            if i.op == "call" and i.callee == "_ipow":
+                seen, work, truncs = set(), [("i", i.id)], []
+                while work:
+                    k = work.pop()
+                    if k in seen:
+                        continue
+                    seen.add(k)
+                    for u in f.users(k):
+                        if u.op in _ARITH:
+                            work.append(("i", u.id))
+                        elif u.op in ("sdiv", "udiv") and u.ops[0][0] == "i" and ("i", u.ops[0][1]) == k and u.ops[1][0] == "c":
+                            work.append(("i", u.id))
+                        elif u.op == "trunc" and int(u.type[1:]) < 64:
+                            truncs.append(u)
+                out.append((f, i, seen, truncs))
+    return out
+
+
+def _narrow(m):
+    sl = _ipow_slices(m)
+    if len(sl) < 5:
+        raise AnalysisBroken("fewer than 5 _ipow call sites found (%d)" % len(sl))
+    for f, call, seen, truncs in sl:
+        if call.ops[0][0] != "c" or call.ops[0][1] != 7:
+            return {"bad": ("ipow-base:%s" % f.name, "%s calls _ipow with a base other than 7 (aperture-7 child counts are powers of 7)" % f.name, call.where())}
+        if truncs:
+            t = truncs[0]
+            return {"bad": ("narrow:%s" % f.name,
+                            "%s truncates a value computed from _ipow(7, n) to %s at %s; child counts reach 7^15 = 4.7e12 and do not fit (wrong positions for resolution differences >= 12)"
+                            % (f.name, t.type, t.where()), t.where())}
+    return {"n": len(sl), "ok": "%d _ipow(7, n) call sites: no value computed from the result is truncated below 64 bits" % len(sl)}
